@@ -6,11 +6,12 @@ import concurrent.futures, os, subprocess, sys
 sys.path.insert(0, os.path.join(os.path.dirname(os.path.abspath(__file__)), "..", "lib"))
 import vf
 
-# which variant of Model/FsPoll.v the implementation is compared with: "fspoll" = the code as it is
-# (fx = false); once notes/C17_fix_fs_poll_ctx.diff is applied to /repo this becomes "fspoll-fixed"
-FSPOLL_VARIANT = "fspoll"
-KEY_OLD_CTX = "fs_poll_restart_with_stat_in_flight_uses_old_ctx"
-KEY_START_ERR = "fs_poll_start_error_frees_ctx_with_linked_timer"
+# which variant of Model/FsPoll.v the implementation is compared with: "fspoll-fixed" = the code as it
+# is (fx = true, since /repo commit 834ed95); "fspoll" = history, the code before that commit
+FSPOLL_VARIANT = "fspoll-fixed"
+# repaired in /repo (834ed95, 9bc8132); their replays stay in corpus/C17/fspoll_known.txt and are plain
+# violations if they ever show again: fs_poll_restart_with_stat_in_flight_uses_old_ctx,
+# fs_poll_start_error_frees_ctx_with_linked_timer
 KEY_ISDIR = "fs_event_attrib_on_directory_reports_rename_too"
 ENV = dict(os.environ, ASAN_OPTIONS="detect_leaks=0:abort_on_error=0", UV_THREADPOOL_SIZE="1",
            UV_USE_IO_URING="0")
@@ -49,7 +50,7 @@ def fp_api_op(rng, nh, npaths, allow_fail=True):
     h = rng.randrange(nh)
     r = rng.random()
     if r < 0.45:
-        f = 1 if (allow_fail and rng.random() < 0.04) else 0
+        f = rng.choice([1, 2]) if (allow_fail and rng.random() < 0.06) else 0
         return "S%d,%d,%d,%d,%d" % (h, rng.randint(1, 3), rng.randrange(npaths), rng.choice(INTERVALS), f)
     if r < 0.80:
         return "T%d" % h
@@ -944,22 +945,21 @@ def fsevent_part(chk, exe, model, thorough, work):
 
 # ----------------------------------------------------------------------------------------------
 def fspoll_part(chk, exe, model, thorough, work):
-    corpus, known_cases = [], []
+    corpus = []
     cdir = os.path.join(vf.VERIF, "corpus", "C17")
-    for fn, dst in (("fspoll.txt", corpus), ("fspoll_known.txt", known_cases)):
+    for fn in ("fspoll_known.txt", "fspoll.txt"):       # fspoll_known.txt: replays of the two repaired defects
         p = os.path.join(cdir, fn)
         if os.path.exists(p):
-            dst += [l.rstrip("\n") for l in open(p) if l.strip() and not l.startswith("#")]
+            corpus += [l.rstrip("\n") for l in open(p) if l.strip() and not l.startswith("#")]
     if chk.replay:
         rp = vf.json.load(open(chk.replay))
         cases = [rp["case"].split("  ## script: ")[-1]] if rp.get("obligation", "").startswith("fs-poll") else []
-        known_cases, corpus = [], []
     else:
-        cases = known_cases + corpus + [fp_case(chk.rng) for _ in range(3000 if thorough else 260)]
+        cases = corpus + [fp_case(chk.rng) for _ in range(3000 if thorough else 260)]
     if not cases:
         return
     res = run_each(exe, cases, work, "p")
-    minputs, canon, keep = [], [], []
+    minputs, keep = [], []
     for c, (out, rc, err) in zip(cases, res):
         if rc != 0 or "Sanitizer" in err or "runtime error" in err:
             chk.violation("fs-poll.c: the harness aborted (%s)" % (
@@ -971,68 +971,32 @@ def fspoll_part(chk, exe, model, thorough, work):
         keep.append((c, toks, groups, other))
         minputs.append(fp_model_input(c, groups))
     mout, _, merr = vf.run_lines([model, FSPOLL_VARIANT], minputs, shards=8) if minputs else ([], 0, "")
-    mfix, _, _ = vf.run_lines([model, "fspoll-fixed"], minputs, shards=8) if minputs else ([], 0, "")
     by_case, nself = {}, 0
     dec = [mi + "  ## script: " + k[0] for k, mi in zip(keep, minputs)]
-    for (c, toks, groups, other), mi, mf, mo in zip(keep, dec, mfix, mout):
-        by_case[mi] = (c, groups, other, mf, mo)
-        # the repaired variant of the model must satisfy the monitor on every script
-        r = fp_monitor_with(c, mf.split(), groups, 0)
+    for (c, toks, groups, other), mi, mo in zip(keep, dec, mout):
+        by_case[mi] = (c, groups, other)
+        # every trace of the model must satisfy the monitor (the monitor asks no more than the theorems give)
+        r = fp_monitor_with(c, mo.split(), groups, 0)
         if r is not None and nself == 0:
             nself += 1
-            chk.violation("fs-poll: the repaired model variant violates the monitor (%s)" % r,
-                          {"kind": "selfcheck", "obligation": "monitor vs Model/FsPoll.v fx=true",
-                           "case": mi, "model_fixed": mf}, found_input=False)
+            chk.violation("fs-poll: the model's own trace violates the monitor (%s)" % r,
+                          {"kind": "selfcheck", "obligation": "monitor vs Model/FsPoll.v",
+                           "case": mi, "model": mo}, found_input=False)
 
-    stats = {"known": 0, "callbacks": 0, "closes": 0}
+    stats = {"callbacks": 0, "closes": 0}
 
     def monitor(mi, impl_line):
-        c, groups, other, mf, mo = by_case[mi]
+        c, groups, other = by_case[mi]
         stats["callbacks"] += sum(1 for t in impl_line.split() if t[0] == "p")
         stats["closes"] += sum(1 for t in impl_line.split() if t[0] == "x")
-        r = fp_monitor_with(c, impl_line.split(), groups, other)
-        if r is None:
-            return None
-        if vf.canon(mo) == vf.canon(impl_line) and vf.canon(mf) != vf.canon(mo):
-            # the implementation does what the faithful model does, and the script reaches the one
-            # defect that model has (the repaired variant behaves differently on it)
-            stats["known"] += 1
-            return "KNOWN:" + KEY_OLD_CTX
-        return r
+        return fp_monitor_with(c, impl_line.split(), groups, other)
     impl = [" ".join(k[1]) for k in keep]
     vf.diff_cases(chk, "fs-poll.c = Model/FsPoll.v", dec, impl, mout, monitor)
     chk.cov["fs_poll_scripts"] = len(cases)
     chk.cov["fs_poll_callbacks_observed"] = stats["callbacks"]
     chk.cov["fs_poll_close_callbacks_observed"] = stats["closes"]
-    chk.cov["fs_poll_scripts_reaching_known_defect"] = stats["known"]
     if keep:
         chk.sample({"fs_poll_case": minputs[-1][:600], "impl": impl[-1][:600]})
-    # the concrete replays of the known defect must show it (or the defect has been repaired)
-    if known_cases and not chk.replay:
-        f = chk.match_known(KEY_OLD_CTX)
-        shown = stats["known"] > 0
-        if not shown:
-            chk.cov["note_known_old_ctx"] = "replay cases in corpus/C17/fspoll_known.txt no longer show the defect"
-
-
-def item8_probe(chk, exe, work):
-    """uv_fs_poll_start whose uv_fs_stat fails frees the context while its timer is linked in
-    loop->handle_queue: the next uv_timer_init writes into freed memory (ASan)."""
-    case = "1000 2 ; Fw0,1 Fw1,1 I I S0,1,0,10,2 S1,1,1,10,0 K R C0 C1 Z ; "
-    out, rc, err = run_each(exe, [case], work, "e")[0]
-    if "heap-use-after-free" in err:
-        f = chk.match_known(KEY_START_ERR)
-        if f is not None:
-            f.setdefault("example", {"case": case, "asan": err[:600]})
-            chk.known_hit(f)
-        else:
-            chk.violation("fs-poll.c: uv_fs_poll_start frees its context on the uv_fs_stat error path while the "
-                          "context's timer is still linked in loop->handle_queue (heap-use-after-free in the next "
-                          "uv_timer_init) -- unlisted finding " + KEY_START_ERR,
-                          {"kind": "asan", "obligation": "fs-poll.c start error path", "case": case,
-                           "stderr": err[:2500]}, found_input=True)
-    else:
-        chk.cov["item8_probe"] = "no sanitizer report (rc=%d): %s" % (rc, out[:200])
 
 
 def main():
@@ -1040,7 +1004,7 @@ def main():
     thorough = chk.tier == "thorough"
     chk.prove()
     try:
-        lib = vf.build_libuv(chk.scratch, "asan", extra=("-DNDEBUG",))
+        lib = vf.build_libuv(chk.scratch, "asan")   # asserts on (the timer_cb assert holds since 834ed95)
         hpoll = vf.cc_harness(chk.scratch, "c17_fspoll", ["c17_fspoll.c"], lib=lib, flavour="asan",
                               wraps=["clock_gettime", "epoll_pwait", "syscall"])
         hev = vf.cc_harness(chk.scratch, "c17_fsevent", ["c17_fsevent.c"], lib=lib, flavour="asan",
@@ -1052,8 +1016,6 @@ def main():
     work = os.path.join(chk.scratch.dir, "work")
     fspoll_part(chk, hpoll, model, thorough, work)
     fsevent_part(chk, hev, model, thorough, work)
-    if not chk.replay:
-        item8_probe(chk, hpoll, work)
     chk.finish(
         level="proof",
         rule="fs_poll: random API scripts (start/stop/restart/close in every phase of the poll cycle, from "
